@@ -136,6 +136,9 @@ trait Prim: 'static {
     }
     /// tags of the no-lost-wake-up property of this primitive
     fn wake_tags() -> &'static str;
+    /// per-thread set-up of a worker thread that will execute calls (the starvation oracle is
+    /// thread-local)
+    fn install_thread(_param: &str) {}
     /// probe after the drain, when nothing is held or pending
     fn idle_probe(&self) -> Option<String> {
         None
@@ -683,6 +686,10 @@ impl<const N: usize> Prim for MutexP<N> {
     fn wake_tags() -> &'static str {
         "[C05,C10]"
     }
+    fn install_thread(param: &str) {
+        let fire = param.contains("fire=1");
+        set_starvation_oracle(Some(Box::new(move || fire)));
+    }
 }
 
 // ------------------------------------------------------------------ Semaphore
@@ -1118,6 +1125,10 @@ impl Prim for RwP {
     fn wake_tags() -> &'static str {
         "[C06,C10]"
     }
+    fn install_thread(param: &str) {
+        let fire = param.contains("fire=1");
+        set_starvation_oracle(Some(Box::new(move || fire)));
+    }
 }
 
 // ------------------------------------------------------------------ OnceCell
@@ -1372,8 +1383,9 @@ impl Prim for BarrierP {
         if self.n >= 1 && snap.words[1] >= self.n {
             return Some(format!("[C09] {} arrivals in the current generation of a barrier of {}", snap.words[1], self.n));
         }
-        if snap.words[0] != 0 {
-            return Some(format!("[C09] the state mutex is left at {} between calls", snap.words[0]));
+        // between calls nobody holds the state mutex; a pending wait may own a starvation ticket
+        if snap.words[0] % 2 != 0 || snap.words[0] / 2 > self.pending() {
+            return Some(format!("[C09] the state mutex is left at {} between calls with {} waits pending", snap.words[0], self.pending()));
         }
         None
     }
@@ -1394,6 +1406,404 @@ impl Prim for BarrierP {
     fn wake_tags() -> &'static str {
         "[C09]"
     }
+    fn install_thread(param: &str) {
+        let fire = param.contains("fire=1");
+        set_starvation_oracle(Some(Box::new(move || fire)));
+    }
+}
+
+// ------------------------------------------------------------------ deterministic scheduler
+//
+// Every agent's calls run on the agent's own thread. Hook H4 parks the thread after each of its
+// atomic operations; the controller (the main thread) decides which agent takes the next step. Only
+// one thread runs at any time, so an execution is a sequentially consistent interleaving of the
+// calls at the granularity of single atomic operations - any interleaving, not only the nested
+// ones of the injection mode. Explored depth-first with a bound on the number of calls started and
+// on the number of preemptions (switching away from an agent that is in the middle of a call).
+
+struct Shared<P>(P);
+// only one thread touches the world at a time, and the hand-over goes through channels
+unsafe impl<P> Send for Shared<P> {}
+unsafe impl<P> Sync for Shared<P> {}
+
+/// single-producer single-consumer hand-over cell; the receiver spins (a hand-over through a
+/// blocking channel costs a thread wake-up, tens of microseconds, at every step of every schedule)
+struct Mailbox<T> {
+    full: AtomicBool,
+    slot: std::sync::Mutex<Option<T>>,
+}
+
+impl<T> Mailbox<T> {
+    fn new() -> Arc<Self> {
+        Arc::new(Mailbox { full: AtomicBool::new(false), slot: std::sync::Mutex::new(None) })
+    }
+    fn send(&self, v: T) {
+        *self.slot.lock().unwrap() = Some(v);
+        self.full.store(true, Ordering::Release);
+    }
+    fn recv(&self) -> T {
+        let mut n = 0u32;
+        while !self.full.load(Ordering::Acquire) {
+            std::hint::spin_loop();
+            n += 1;
+            if n > 1 << 22 {
+                // idle for a long time (another mode is running): stop burning a core
+                std::thread::sleep(std::time::Duration::from_micros(200));
+            }
+        }
+        self.full.store(false, Ordering::Relaxed);
+        self.slot.lock().unwrap().take().unwrap()
+    }
+}
+
+enum Cmd<P: Prim> {
+    Init(Arc<Shared<P>>, String),
+    Call(&'static str),
+    Go,
+    Reset,
+    Quit,
+}
+
+enum Evt {
+    Ack,
+    Point(Vec<async_lock::__verif::AtomicOp>),
+    Done(&'static str, Vec<async_lock::__verif::AtomicOp>),
+}
+
+fn worker<P: Prim>(a: usize, rx: Arc<Mailbox<Cmd<P>>>, tx: Arc<Mailbox<Evt>>) {
+    record_atomics(true);
+    let mut world: Option<Arc<Shared<P>>> = None;
+    loop {
+        match rx.recv() {
+            Cmd::Init(w, param) => {
+                P::install_thread(&param);
+                world = Some(w);
+                let _ = take_atomic_log();
+                tx.send(Evt::Ack);
+            }
+            Cmd::Call(c) => {
+                let (rx2, tx2) = (rx.clone(), tx.clone());
+                let mut n = 0usize;
+                set_preempt_hook(Some(Box::new(move || {
+                    n += 1;
+                    // the hook runs before and after each operation: park after it
+                    if n % 2 == 0 {
+                        tx2.send(Evt::Point(take_atomic_log()));
+                        match rx2.recv() {
+                            Cmd::Go => {}
+                            _ => panic!("unexpected command at a preemption point"),
+                        }
+                    }
+                })));
+                let r = world.as_ref().unwrap().0.exec(a, c);
+                set_preempt_hook(None);
+                tx.send(Evt::Done(r, take_atomic_log()));
+            }
+            Cmd::Reset => {
+                world = None;
+                set_starvation_oracle(None);
+                tx.send(Evt::Ack);
+            }
+            Cmd::Quit => return,
+            Cmd::Go => panic!("Go without a call in flight"),
+        }
+    }
+}
+
+#[derive(Clone, Copy, PartialEq)]
+enum Choice {
+    Start(usize, &'static str),
+    Step(usize),
+}
+
+struct Sched<P: Prim> {
+    tx: Vec<Arc<Mailbox<Cmd<P>>>>,
+    rx: Vec<Arc<Mailbox<Evt>>>,
+}
+
+impl<P: Prim> Sched<P> {
+    fn new() -> Self {
+        let (mut txs, mut rxs) = (Vec::new(), Vec::new());
+        for a in 0..P::agents() {
+            let mc = Mailbox::<Cmd<P>>::new();
+            let me = Mailbox::<Evt>::new();
+            let (mc2, me2) = (mc.clone(), me.clone());
+            std::thread::spawn(move || worker::<P>(a, mc2, me2));
+            txs.push(mc);
+            rxs.push(me);
+        }
+        Sched { tx: txs, rx: rxs }
+    }
+}
+
+struct SchedOut {
+    line: String,
+    viol: Option<String>,
+    /// state after the schedule proper (before everybody is run to completion)
+    mid: Vec<bool>,
+    calls: Vec<Vec<&'static str>>,
+}
+
+fn fmt_ops(addrs: &[usize], agent: usize, ops: Vec<async_lock::__verif::AtomicOp>, ev: &mut Vec<String>) {
+    for op in ops {
+        let w = addrs.iter().position(|&x| x == op.addr).map(|x| x as i64).unwrap_or(9);
+        let (kind, ret) = match (op.op, op.ret) {
+            (_, None) => ("none", 0),
+            ("cas", Some(v)) | ("casw", Some(v)) => (if op.ok { "ok" } else { "err" }, v),
+            (_, Some(v)) => ("val", v),
+        };
+        let a = if op.op == "fand" { (op.args[0] as i64).to_string() } else { op.args[0].to_string() };
+        ev.push(format!("A{}:{}:{}:{}:{}:{}:{}", agent, w, op.op, a, op.args[1], kind, ret));
+    }
+}
+
+fn run_schedule<P: Prim>(sc: &Sched<P>, param: &str, sched: &[Choice], full: bool) -> SchedOut {
+    record_atomics(true);
+    let _ = take_atomic_log();
+    let world = Arc::new(Shared(P::new(param)));
+    let addrs = world.0.addrs();
+    let _ = take_atomic_log();
+    let n = P::agents();
+    for a in 0..n {
+        sc.tx[a].send(Cmd::Init(world.clone(), param.to_string()));
+        match sc.rx[a].recv() {
+            Evt::Ack => {}
+            _ => panic!("worker did not acknowledge"),
+        }
+    }
+    let mut ev: Vec<String> = Vec::new();
+    let mut viol: Option<String> = None;
+    let mut mid = vec![false; n];
+    let check = |ev: &mut Vec<String>, viol: &mut Option<String>, mid: &Vec<bool>| {
+        if viol.is_none() {
+            if let Some(v) = world.0.monitor(mid.iter().any(|&m| m)) {
+                let v = v.replace(' ', "_");
+                ev.push(format!("V:{}", v));
+                *viol = Some(v);
+            }
+        }
+    };
+    // one step of agent `a`: until its next preemption point or the end of its call
+    let advance = |a: usize, ev: &mut Vec<String>, mid: &mut Vec<bool>| match sc.rx[a].recv() {
+        Evt::Point(ops) => {
+            fmt_ops(&addrs, a, ops, ev);
+            mid[a] = true;
+        }
+        Evt::Done(r, ops) => {
+            fmt_ops(&addrs, a, ops, ev);
+            ev.push(format!("R{}:{}", a, r));
+            mid[a] = false;
+        }
+        Evt::Ack => panic!("unexpected Ack"),
+    };
+    for &ch in sched {
+        match ch {
+            Choice::Start(a, c) => {
+                ev.push(format!("B{}:{}", a, c));
+                sc.tx[a].send(Cmd::Call(c));
+                advance(a, &mut ev, &mut mid);
+            }
+            Choice::Step(a) => {
+                sc.tx[a].send(Cmd::Go);
+                advance(a, &mut ev, &mut mid);
+            }
+        }
+        check(&mut ev, &mut viol, &mid);
+    }
+    let mid_after = mid.clone();
+    let calls: Vec<Vec<&'static str>> = (0..n).map(|a| world.0.calls(a)).collect();
+    // everybody finishes, in agent order
+    for a in 0..n {
+        while mid[a] {
+            sc.tx[a].send(Cmd::Go);
+            advance(a, &mut ev, &mut mid);
+            check(&mut ev, &mut viol, &mid);
+        }
+    }
+    // probes and drain, on this thread (as in the injection mode)
+    let p = &world.0;
+    let call = |a: usize, c: &str, ev: &mut Vec<String>, viol: &mut Option<String>| {
+        ev.push(format!("B{}:{}", a, c));
+        let r = p.exec(a, c);
+        fmt_ops(&addrs, a, take_atomic_log(), ev);
+        ev.push(format!("R{}:{}", a, r));
+        if viol.is_none() {
+            if let Some(v) = p.monitor(false) {
+                let v = v.replace(' ', "_");
+                ev.push(format!("V:{}", v));
+                *viol = Some(v);
+            }
+        }
+    };
+    let mut probe_viol: Option<String> = None;
+    if viol.is_none() && full {
+        let v = p.final_probe();
+        let _ = take_atomic_log();
+        if let Some(v) = v {
+            let v = v.replace(' ', "_");
+            ev.push(format!("V:{}", v));
+            probe_viol = Some(v);
+        }
+    }
+    let mut polls = 0usize;
+    while viol.is_none() && full {
+        let w = p.woken();
+        if !w.is_empty() {
+            for (a, c) in w {
+                call(a, c, &mut ev, &mut viol);
+                polls += 1;
+            }
+            if polls > 60 && viol.is_none() {
+                let v = format!("[C17]_after_{}_re-polls_the_futures_still_wake_each_other", polls);
+                ev.push(format!("V:{}", v));
+                viol = Some(v);
+            }
+            continue;
+        }
+        match p.releasable().first() {
+            Some(&(a, c)) => call(a, c, &mut ev, &mut viol),
+            None => break,
+        }
+    }
+    if viol.is_none() && full {
+        let npend = p.pending();
+        let v = if p.lost() {
+            Some(format!("{} lost wake-up: nothing is held, nobody is woken, {} future(s) still pending", P::wake_tags(), npend))
+        } else if npend == 0 {
+            let v = p.idle_probe();
+            let _ = take_atomic_log();
+            v
+        } else {
+            None
+        };
+        if let Some(v) = v {
+            let v = v.replace(' ', "_");
+            ev.push(format!("V:{}", v));
+            viol = Some(v);
+        }
+    }
+    set_starvation_oracle(None);
+    for a in 0..n {
+        sc.tx[a].send(Cmd::Reset);
+        match sc.rx[a].recv() {
+            Evt::Ack => {}
+            _ => panic!("worker did not acknowledge"),
+        }
+    }
+    let key = format!(
+        "S:T{}",
+        sched
+            .iter()
+            .map(|c| match c {
+                Choice::Start(a, c) => format!("{}.{}", a, c),
+                Choice::Step(a) => format!("s{}", a),
+            })
+            .collect::<Vec<_>>()
+            .join(",")
+    );
+    let line = format!("{} {} {} | {} {}", P::name(), P::agents(), P::header_param(param), key, ev.join(" "));
+    let viol = viol.or(probe_viol);
+    if viol.is_some() {
+        std::mem::forget(world);
+    }
+    SchedOut { line, viol, mid: mid_after, calls }
+}
+
+struct Bounds {
+    calls: usize,
+    preempts: usize,
+    steps: usize,
+}
+
+fn explore_sched<P: Prim>(sc: &Sched<P>, param: &str, prefix: &mut Vec<Choice>, cur: Option<usize>, started: usize, used: usize, b: &Bounds, pre_left: usize, out: &mut dyn Write, st: &mut Stats) {
+    // the state after the prefix decides what can follow
+    let o = run_schedule::<P>(sc, param, prefix, false);
+    let n = P::agents();
+    // switching away from an agent that is in the middle of a call is a preemption
+    let cost = |a: usize| match cur {
+        Some(c) if c != a && o.mid[c] => 1,
+        _ => 0,
+    };
+    let mut children: Vec<(Choice, usize, usize, usize)> = Vec::new();
+    if o.viol.is_none() && prefix.len() < b.steps {
+        for a in 0..n {
+            if o.mid[a] {
+                if cost(a) <= pre_left {
+                    children.push((Choice::Step(a), started, used, pre_left - cost(a)));
+                }
+            } else if started < b.calls && a <= used && cost(a) <= pre_left {
+                // agents are interchangeable: a fresh agent is the one with the smallest unused index
+                for &c in &o.calls[a] {
+                    children.push((Choice::Start(a, c), started + 1, used.max(a + 1), pre_left - cost(a)));
+                }
+            }
+        }
+    }
+    if children.is_empty() {
+        // a leaf: the whole scenario, with probes and drain
+        let o = run_schedule::<P>(sc, param, prefix, true);
+        st.scenarios += 1;
+        if o.viol.is_some() {
+            st.violations += 1;
+        }
+        writeln!(out, "{}", o.line).unwrap();
+        return;
+    }
+    for (ch, started2, used2, pre2) in children {
+        let a = match ch {
+            Choice::Start(a, _) | Choice::Step(a) => a,
+        };
+        prefix.push(ch);
+        explore_sched::<P>(sc, param, prefix, Some(a), started2, used2, b, pre2, out, st);
+        prefix.pop();
+    }
+}
+
+fn run_sched<P: Prim>(calls: usize, preempts: usize, steps: usize) {
+    let stdout = std::io::stdout();
+    let mut out = std::io::BufWriter::with_capacity(1 << 20, stdout.lock());
+    let mut st = Stats { scenarios: 0, violations: 0 };
+    let sc = Sched::<P>::new();
+    let b = Bounds { calls, preempts, steps };
+    for param in P::params() {
+        explore_sched::<P>(&sc, &param, &mut Vec::new(), None, 0, 0, &b, b.preempts, &mut out, &mut st);
+    }
+    for t in &sc.tx {
+        t.send(Cmd::Quit);
+    }
+    out.flush().unwrap();
+    eprintln!("INJECT prim={} scenarios={} violations={}", P::name(), st.scenarios, st.violations);
+}
+
+fn replay_sched<P: Prim>(param: &str, key: &str) {
+    let key = key.strip_prefix("S:").unwrap_or(key);
+    let key = key.strip_prefix('T').unwrap_or(key);
+    let sc = Sched::<P>::new();
+    // the call names have to be 'static: look them up among the names the primitive knows
+    let mut sched: Vec<Choice> = Vec::new();
+    for item in key.split(',').filter(|s| !s.is_empty()) {
+        if let Some(a) = item.strip_prefix('s') {
+            if let Ok(a) = a.parse::<usize>() {
+                sched.push(Choice::Step(a));
+                continue;
+            }
+        }
+        let (a, c) = item.split_once('.').expect("agent.call");
+        let a: usize = a.parse().unwrap();
+        // run the schedule so far to learn the (static) names of the possible calls
+        let o = run_schedule::<P>(&sc, param, &sched, false);
+        let name = o.calls[a].iter().copied().find(|n| *n == c).expect("call not possible here");
+        sched.push(Choice::Start(a, name));
+    }
+    let o = run_schedule::<P>(&sc, param, &sched, true);
+    println!("{}", o.line);
+    for t in &sc.tx {
+        t.send(Cmd::Quit);
+    }
+    if let Some(v) = o.viol {
+        eprintln!("VIOLATION {}", v);
+        std::process::exit(1);
+    }
 }
 
 fn main() {
@@ -1401,6 +1811,18 @@ fn main() {
     match args.get(1).map(|s| s.as_str()) {
         Some("replay") => {
             let (prim, param, key) = (&args[2], &args[3], &args[4]);
+            if key.trim_start_matches("S:").starts_with('T') {
+                match prim.as_str() {
+                    "mutex" => replay_sched::<MutexP<3>>(param, key),
+                    "mutex5" => replay_sched::<MutexP<5>>(param, key),
+                    "sem" => replay_sched::<SemP>(param, key),
+                    "rwlock" => replay_sched::<RwP>(param, key),
+                    "once" => replay_sched::<OnceP>(param, key),
+                    "barrier" => replay_sched::<BarrierP>(param, key),
+                    _ => panic!("unknown primitive"),
+                }
+                return;
+            }
             match prim.as_str() {
                 "mutex" => replay::<MutexP<3>>(param, key),
                 "mutex5" => replay::<MutexP<5>>(param, key),
@@ -1408,6 +1830,20 @@ fn main() {
                 "rwlock" => replay::<RwP>(param, key),
                 "once" => replay::<OnceP>(param, key),
                 "barrier" => replay::<BarrierP>(param, key),
+                _ => panic!("unknown primitive"),
+            }
+        }
+        Some("sched") => {
+            // inject sched <prim> <calls> <preemptions> <steps>
+            let (prim, calls, pre, steps): (&str, usize, usize, usize) =
+                (&args[2], args[3].parse().expect("calls"), args[4].parse().expect("preemptions"), args[5].parse().expect("steps"));
+            match prim {
+                "mutex" => run_sched::<MutexP<3>>(calls, pre, steps),
+                "mutex5" => run_sched::<MutexP<5>>(calls, pre, steps),
+                "sem" => run_sched::<SemP>(calls, pre, steps),
+                "rwlock" => run_sched::<RwP>(calls, pre, steps),
+                "once" => run_sched::<OnceP>(calls, pre, steps),
+                "barrier" => run_sched::<BarrierP>(calls, pre, steps),
                 _ => panic!("unknown primitive"),
             }
         }
